@@ -724,6 +724,25 @@ theorem regress_legacy_files :
       ∧ (run tprov tparse (init true [("a b.sql".toList, "old".toList)] [] []) [.get "a b".toList]).files
           = [("a b.sql".toList, "old".toList), ("a%20b.sql".toList, tprov "a b".toList)] := by decide +kernel
 
+/-! `Cache.enc` against values computed by the real `urllib.parse.quote(·, safe="")` (tests; the correspondence compares it on every
+history — the `dir=` listing — and on generated names: `QUOTE`, `STEM`) -/
+#guard String.ofList (enc "s.t".toList) == "s.t"
+#guard String.ofList (enc "a/b".toList) == "a%2Fb"
+#guard String.ofList (enc "../x".toList) == "..%2Fx"
+#guard String.ofList (enc "/abs".toList) == "%2Fabs"
+#guard String.ofList (enc "a%2Fb".toList) == "a%252Fb"
+#guard String.ofList (enc "a b".toList) == "a%20b"
+#guard String.ofList (enc [Char.ofNat 233, Char.ofNat 34920]) == "%C3%A9%E8%A1%A8"
+#guard String.ofList (enc [Char.ofNat 128512]) == "%F0%9F%98%80"
+#guard String.ofList (enc [Char.ofNat 97, Char.ofNat 0, Char.ofNat 98]) == "a%00b"
+#guard String.ofList (enc "~_-.".toList) == "~_-."
+#guard String.ofList (enc "".toList) == ""
+#guard String.ofList (enc "`s`.`t`".toList) == "%60s%60.%60t%60"
+#guard String.ofList (enc "a\\b".toList) == "a%5Cb"
+#guard String.ofList (enc [Char.ofNat 127, Char.ofNat 128, Char.ofNat 2047, Char.ofNat 2048, Char.ofNat 65535, Char.ofNat 65536, Char.ofNat 1114111]) == "%7F%C2%80%DF%BF%E0%A0%80%EF%BF%BF%F0%90%80%80%F4%8F%BF%BF"
+#guard (decStem "%F4%8F%BF%BF%20a".toList).map String.ofList == some (String.ofList [Char.ofNat 1114111, ' ', 'a'])
+#guard decStem "a%2fb".toList == none && decStem "a b".toList == none && decStem "%C0%AF".toList == none && decStem "%41".toList == none
+
 /-- non-vacuity of `asked_once_across_restarts` -/
 example : (([.get "./a".toList, .init true, .get "a".toList, .get "./a".toList, .init true, .get "a".toList] : List Op).all DiskOp) = true := by
   decide +kernel
